@@ -115,6 +115,8 @@ pub struct Encoded {
 pub struct Ref<'a> {
     pub d: &'a Desc,
     flats: std::cell::RefCell<BTreeMap<String, std::rc::Rc<Flat>>>,
+    /// when set, range errors of the encoder are collected here and encoding goes on with the masked value
+    collect: std::cell::RefCell<Option<Vec<EncErr>>>,
 }
 
 fn mask(w: u32) -> u64 {
@@ -131,7 +133,7 @@ fn bad<T>(s: impl Into<String>) -> Result<T, EncErr> {
 
 impl<'a> Ref<'a> {
     pub fn new(d: &'a Desc) -> Ref<'a> {
-        Ref { d, flats: Default::default() }
+        Ref { d, flats: Default::default(), collect: Default::default() }
     }
 
     pub fn flat(&self, id: &str) -> std::rc::Rc<Flat> {
@@ -241,6 +243,29 @@ impl<'a> Ref<'a> {
     }
 
     /// like `encode`, but the events are also returned when encoding fails
+    /// A range error of the encoder: returned at once, or collected (see `encode_all_errors`).
+    fn raise(&self, e: EncErr) -> Result<(), EncErr> {
+        match self.collect.borrow_mut().as_mut() {
+            Some(v) => {
+                v.push(e);
+                Ok(())
+            }
+            None => Err(e),
+        }
+    }
+
+    /// Every range error that applies to `val` (not only the first in the reference's own order): the encoder
+    /// goes on past each one with the value masked to its field.
+    pub fn encode_all_errors(&self, ty: &str, val: &Value) -> Vec<EncErr> {
+        *self.collect.borrow_mut() = Some(vec![]);
+        let (r, _) = self.encode_events(ty, val);
+        let mut errs = self.collect.borrow_mut().take().unwrap_or_default();
+        if let Err(e) = r {
+            errs.push(e);
+        }
+        errs
+    }
+
     pub fn encode_events(&self, ty: &str, val: &Value) -> (Result<Encoded, EncErr>, Events) {
         let fl = self.flat(ty);
         let mut ev = Events::new();
@@ -264,8 +289,9 @@ impl<'a> Ref<'a> {
                 let Some(x) = v.as_u64() else { return bad("array element") };
                 if x > mask(*w) {
                     ev.insert("scalar-elem>width".into());
-                    return Err(EncErr::ScalarRange);
+                    self.raise(EncErr::ScalarRange)?;
                 }
+                let x = x & mask(*w);
                 let n = *w as usize / 8;
                 lay.push(Chunk { off: base + out.len(), len: n, kind: if n == 1 { ChunkKind::Bytes } else { ChunkKind::ScalarElem }, owner: owner.into(), bits: vec![] });
                 self.int_bytes(x, n, out);
@@ -284,8 +310,9 @@ impl<'a> Ref<'a> {
                 Some(TyKind::Custom(Some(w))) => {
                     let Some(x) = v.as_u64() else { return bad("custom element") };
                     if x > mask(w) {
-                        return Err(EncErr::ScalarRange);
+                        self.raise(EncErr::ScalarRange)?;
                     }
+                    let x = x & mask(w);
                     let n = w as usize / 8;
                     lay.push(Chunk { off: base + out.len(), len: n, kind: ChunkKind::Custom, owner: owner.into(), bits: vec![] });
                     self.int_bytes(x, n, out);
@@ -396,7 +423,7 @@ impl<'a> Ref<'a> {
                                 None => val = Some(want),
                                 Some(x) if x != want => {
                                     ev.insert("inconsistent-flag".into());
-                                    return Err(EncErr::InconsistentCondition);
+                                    self.raise(EncErr::InconsistentCondition)?;
                                 }
                                 _ => {}
                             }
@@ -417,18 +444,18 @@ impl<'a> Ref<'a> {
                         };
                         if v > mask(w) {
                             ev.insert("size>field".into());
-                            return Err(EncErr::SizeOverflow);
+                            self.raise(EncErr::SizeOverflow)?;
                         }
-                        (v, BitKind::Size, target.clone())
+                        (v & mask(w), BitKind::Size, target.clone())
                     }
                     FK::Count { target, .. } => {
                         let Some(items) = obj.get(target).and_then(|v| v.as_array()) else { return bad("count target") };
                         let v = items.len() as u64;
                         if v > mask(w) {
                             ev.insert("count>field".into());
-                            return Err(EncErr::CountOverflow);
+                            self.raise(EncErr::CountOverflow)?;
                         }
-                        (v, BitKind::Count, target.clone())
+                        (v & mask(w), BitKind::Count, target.clone())
                     }
                     FK::ElemSize { target, .. } => {
                         let Some(af) = by_id(target) else { return bad("elementsize target") };
@@ -436,23 +463,24 @@ impl<'a> Ref<'a> {
                         let v = sizes.first().copied().unwrap_or(0) as u64;
                         if sizes.iter().any(|s| *s as u64 != v) {
                             ev.insert("elemsize-mismatch".into());
-                            return Err(EncErr::ElementSizeMismatch);
+                            self.raise(EncErr::ElementSizeMismatch)?;
                         }
                         if v == 0 {
                             ev.insert("elemsize=0".into());
                         }
                         if v > mask(w) {
                             ev.insert("elemsize>field".into());
-                            return Err(EncErr::SizeOverflow);
+                            self.raise(EncErr::SizeOverflow)?;
                         }
-                        (v, BitKind::ElemSize, target.clone())
+                        (v & mask(w), BitKind::ElemSize, target.clone())
                     }
                     _ => unreachable!(),
                 };
                 if v > mask(w) {
                     ev.insert("scalar>width".into());
-                    return Err(EncErr::ScalarRange);
+                    self.raise(EncErr::ScalarRange)?;
                 }
+                let v = v & mask(w);
                 acc |= (v as u128) << sh;
                 bits.push(BitF { off: sh, w, kind, name });
                 sh += w;
@@ -482,8 +510,9 @@ impl<'a> Ref<'a> {
                         let Some(x) = v.as_u64() else { return bad("optional scalar") };
                         if x > mask(*w) {
                             ev.insert("scalar>width".into());
-                            return Err(EncErr::ScalarRange);
+                            self.raise(EncErr::ScalarRange)?;
                         }
+                        let x = x & mask(*w);
                         let n = *w as usize / 8;
                         lay.push(Chunk { off: out.len(), len: n, kind: ChunkKind::OptScalar, owner: id.into(), bits: vec![] });
                         self.int_bytes(x, n, &mut out);
@@ -514,9 +543,9 @@ impl<'a> Ref<'a> {
                     if let Some(p) = padding {
                         if blen as u64 > *p {
                             ev.insert("array>padding".into());
-                            return Err(EncErr::PaddingOverflow);
+                            self.raise(EncErr::PaddingOverflow)?;
                         }
-                        let pad = (*p as usize) - blen;
+                        let pad = (*p as usize).saturating_sub(blen);
                         if pad > 0 {
                             lay.push(Chunk { off: out.len(), len: pad, kind: ChunkKind::Padding, owner: id.clone(), bits: vec![] });
                             out.extend(std::iter::repeat(0).take(pad));
